@@ -83,6 +83,10 @@ static std::string tok_tstack(const TMCG_Stack<TMCG_Card> &s) {
 	if (s.size() == 0) return "_";
 	std::string r; for (size_t i = 0; i < s.size(); i++) { if (i) r += "/"; r += tok_tcard(s[i]); } return r;
 }
+static std::string tok_tss(const TMCG_StackSecret<TMCG_CardSecret> &s) {
+	if (s.size() == 0) return "_";
+	std::string r; for (size_t i = 0; i < s.size(); i++) { if (i) r += "/"; r += hx((unsigned long)s[i].first) + ":" + tok_tsecret(s[i].second); } return r;
+}
 static std::string tok_vss(const TMCG_StackSecret<VTMF_CardSecret> &s) {
 	if (s.size() == 0) return "_";
 	std::string r; for (size_t i = 0; i < s.size(); i++) { if (i) r += ";"; r += hx((unsigned long)s[i].first) + "," + hx(s[i].second.r); } return r;
@@ -221,6 +225,9 @@ int main(int argc, char **argv) {
 		  std::string mm = mutate(s); TMCG_Stack<TMCG_Card> e; ok2 = e.import(mm); Rec("tstack_imp").t("_").b(mm).t(ok2 ? tok_tstack(e) : "none"); }
 		s = exp(ss); TMCG_StackSecret<TMCG_CardSecret> dss; ok = dss.import(s);
 		if (!ok || exp(dss) != s) propfail("tstacksecret-roundtrip", "TMCG_StackSecret<TMCG_CardSecret> does not round-trip: " + s.substr(0, 200));
+		Rec("tss_exp").t(tok_tss(ss)).b(s);
+		Rec("tss_imp").t("_").b(s).t(ok ? tok_tss(dss) : "none");
+		{ std::string mm = mutate(s); TMCG_StackSecret<TMCG_CardSecret> e; bool ok2 = e.import(mm); Rec("tss_imp").t("_").b(mm).t(ok2 ? tok_tss(e) : "none"); }
 	}
 	// ---- iostream operators at maximal line lengths (implementation-level oracle) ---------------------------
 	// operator>> for integers reads at most TMCG_MAX_VALUE_CHARS - 2 characters; cards, secrets and stacks are
